@@ -290,3 +290,43 @@ Proof.
   destruct (exec x a) as [a1 r1], (lexec x (indents a) b) as [b1 r2]. destruct Hx as [-> H1]. cbn [fst] in HK.
   destruct r2; [split; [reflexivity|exact H1]|]. rewrite <- HK. apply IH, H1.
 Qed.
+
+(* ---------- write_line is write and exactly one more line feed ---------- *)
+(* the text as it goes to the formatter: indented when the output has an indentation *)
+Definition line_shown (o : outp) (s : str) : str := if (0 <? o_indent o)%Z then indent_text (o_indent o) s else s.
+Definition line_render (o : outp) (f : formatter) (s : str) : res (formatter * str) :=
+  if o_on o then format f (line_shown o s) None else remove_format f (line_shown o s).
+Definition buf_push (o : outp) (f : formatter) (b : str) : outp := with_buf o f (o_buf o ++ b).
+
+(* on every output that is not a decorated section: write_line succeeds exactly when write does, and leaves exactly what
+   write leaves followed by ONE line feed (same formatter state, same indentation) *)
+Lemma write_line_is_write_nl o s : o_sec o && o_on o = false ->
+  do_write o WWriteLine s = (do o1 <- do_write o WWrite s; Ok (buf_push o1 (o_fmt o1) [NL])).
+Proof.
+  intros Hs. unfold do_write, write. rewrite Hs. cbn [bind orb].
+  cbn [with_buf o_indent o_on o_sec o_fmt o_buf].
+  match goal with |- (do x <- ?F; _) = _ => destruct F as [x|e]; cbn [bind]; [|reflexivity] end.
+  unfold buf_push, with_buf. cbn [o_indent o_on o_sec o_fmt o_buf]. now rewrite app_nil_r, <- app_assoc.
+Qed.
+(* a decorated section ends the line whichever of the two is called: write and write_line are the same call *)
+Lemma section_write_is_write_line o s : o_sec o && o_on o = true -> do_write o WWrite s = do_write o WWriteLine s.
+Proof. intros Hs. unfold do_write, write. rewrite Hs. reflexivity. Qed.
+(* what write_line emits, in full: the (indented) text as the formatter renders it, then one line feed *)
+Lemma write_line_body o s o' : o_sec o && o_on o = false -> do_write o WWriteLine s = Ok o' ->
+  exists f' out, line_render o (o_fmt o) s = Ok (f', out) /\ o' = buf_push o f' (out ++ [NL]).
+Proof.
+  intros Hs. unfold do_write, write, line_render, line_shown. rewrite Hs. cbn [bind orb andb].
+  cbn [with_buf o_indent o_on o_sec o_fmt o_buf]. rewrite Bool.andb_true_r.
+  destruct (o_on o);
+    match goal with |- (do x <- ?F; _) = _ -> _ => destruct F as [[f' out]|e]; cbn [bind fst snd]; [|discriminate] end;
+    intros H; inversion H; eexists _, _; (split; [reflexivity|]); reflexivity.
+Qed.
+Lemma section_write_line_body o s o' : o_sec o && o_on o = true -> do_write o WWriteLine s = Ok o' ->
+  exists f0 f' out, add_content_effect o s = Ok f0 /\ format f0 (line_shown o s) None = Ok (f', out) /\ o' = buf_push o f' (out ++ [NL]).
+Proof.
+  intros Hs H. apply Bool.andb_true_iff in Hs as [H1 H2]. unfold do_write, write in H. rewrite H1, H2 in H. cbn [andb orb] in H.
+  destruct (add_content_effect o s) as [f0|e]; cbn [bind] in H; [|discriminate].
+  cbn [with_buf o_indent o_on o_sec o_fmt o_buf] in H. rewrite H2, Bool.andb_true_r in H. cbv iota in H. fold (line_shown o s) in H.
+  destruct (format f0 (line_shown o s) None) as [[f' out]|e] eqn:EF; cbn [bind fst snd] in H; [|discriminate].
+  inversion H. exists f0, f', out. split; [reflexivity|]. split; [exact EF|]. unfold buf_push, with_buf. cbn. now rewrite H1, H2.
+Qed.
